@@ -104,6 +104,20 @@ func (w *World) registerHTTPIntrinsics() {
 	}
 	I["(net/http.Header).Del"] = hdel
 	I["(net/textproto.MIMEHeader).Del"] = hdel
+	I["(net/http.Header).Clone"] = func(e *Exec, fn *ssa.Function, a []Value) Value {
+		m := a[0].(*MapVal)
+		if m.isNil {
+			return m
+		}
+		e.objCounter++
+		c := &MapVal{id: e.objCounter, ktyp: m.ktyp, vtyp: m.vtyp}
+		for i := range m.keys {
+			c.keys = append(c.keys, m.keys[i])
+			sl := m.vals[i].(*SliceVal)
+			c.vals = append(c.vals, e.mkSlice(types.Typ[types.String], e.sliceElems(sl)))
+		}
+		return c
+	}
 	I["net/http.CanonicalHeaderKey"] = func(e *Exec, fn *ssa.Function, a []Value) Value { return e.canonKey(a[0]) }
 	I["net/textproto.CanonicalMIMEHeaderKey"] = func(e *Exec, fn *ssa.Function, a []Value) Value { return e.canonKey(a[0]) }
 
